@@ -27,6 +27,8 @@ type Instance struct {
 
 	RatFloat       bool
 	NoMerge        bool
+	NoLazyMerge    bool
+	LazyArmLimit   int
 	AllowLeak      bool
 	ExpectPanic    string
 	MaxConcretize  int
@@ -55,6 +57,9 @@ type KnownConstraint struct {
 func (in *Instance) defaults() {
 	if in.MaxConcretize == 0 {
 		in.MaxConcretize = 256
+	}
+	if in.LazyArmLimit == 0 {
+		in.LazyArmLimit = 4000
 	}
 	if in.MergeStepLimit == 0 {
 		in.MergeStepLimit = 200000
@@ -104,6 +109,9 @@ func RunInstance(prog *Program, inst *Instance, sv Solvers) (res *InstanceResult
 		if st.solver != nil {
 			res.FeasQueries = st.solver.Queries
 			res.FeasSecs = st.solver.Time.Seconds()
+			if os.Getenv("VP_PROF") != "" {
+				fmt.Fprintf(os.Stderr, "feasibility: %d queries, total %.2fs, inside solver process %.2fs\n", st.solver.Queries, st.solver.Time.Seconds(), st.solver.proc.Time.Seconds())
+			}
 			st.solver.close()
 		}
 		res.wg.Wait()
